@@ -74,6 +74,11 @@ class RegexMatch(Artifact):
         self.mstart = m.span(self.key)[0]
         self.mend = m.span(self.key)[1]
         self._text = m.group(self.key)
+        # Many patterns end in \s* and swallow the blank that follows them.
+        # That blank is not part of the expression: keep it out of the span
+        stripped = self._text.rstrip()
+        self.mend -= len(self._text) - len(stripped)
+        self.mstart += len(stripped) - len(stripped.lstrip())
 
     def __str__(self) -> str:
         return "{}:{}".format(self.id, self._text)
